@@ -88,8 +88,62 @@ Definition pre_matrix (r : routine) (n : nat) (R0 : mat Z) (p : list nat) : mat 
 Lemma variant_und r n D : v_und (variant_of r n D) = is_und r.
 Proof. reflexivity. Qed.
 
+(* the structure of a call that returns *)
+Lemma run_routine_unfold r n R0 itr D s0 res :
+  run_routine r n R0 itr D s0 = Done res ->
+  exists s1 st0 k stf s2,
+    precheck r n R0 = true /\
+    (if is_latt r then s0 = DPerm (r_perm res) :: s1 else s1 = s0) /\
+    init_state (if is_und r then ELtril else ELall) n (pre_matrix r n R0 (r_perm res)) = (st0, k) /\
+    (2 <= n)%nat /\
+    iterate (variant_of r n (match D with Some D' => D' | None => ring_dist n end)) k
+            (S (max_attempts (is_latt r && is_und r) n k)) (itr * k) st0 s1 [] = Some (stf, s2, r_trace res) /\
+    r_rp res = sR stf /\
+    r_out res = (if is_latt r then fun x y => sR stf (index_of x (r_perm res)) (index_of y (r_perm res)) else sR stf) /\
+    r_eff res = length (r_trace res).
+Proof.
+  intros H. unfold run_routine in H.
+  destruct (precheck r n R0) eqn:Pc; cbn [negb] in H; [|discriminate].
+  unfold pre_matrix. destruct (is_latt r) eqn:L.
+  - destruct s0 as [|[z|q|l] s1]; try discriminate.
+    destruct (init_state _ n _) as [st0 k] eqn:Ei. destruct (Nat.ltb n 2) eqn:En; [discriminate|]. apply Nat.ltb_ge in En.
+    destruct (iterate _ _ _ _ _ _ _) as [[[stf s2] tr]|] eqn:It; [|discriminate].
+    inversion H; subst; cbn [r_perm r_trace r_rp r_out r_eff]. exists s1, st0, k, stf, s2. repeat split; auto.
+  - destruct (init_state _ n _) as [st0 k] eqn:Ei. destruct (Nat.ltb n 2) eqn:En; [discriminate|]. apply Nat.ltb_ge in En.
+    destruct (iterate _ _ _ _ _ _ _) as [[[stf s2] tr]|] eqn:It; [|discriminate].
+    inversion H; subst; cbn [r_perm r_trace r_rp r_out r_eff]. exists s0, st0, k, stf, s2. repeat split; auto.
+Qed.
+
+Lemma pre_matrix_und_ok r n R0 p :
+  (forall x y, R0 x y = R0 y x) -> (forall x, R0 x x = 0) ->
+  (forall x y, pre_matrix r n R0 p x y = pre_matrix r n R0 p y x) /\ (forall x, pre_matrix r n R0 p x x = 0).
+Proof.
+  intros Hs Hd. unfold pre_matrix. destruct (is_latt r); [|auto].
+  split; [apply tab_sym|apply tab_diag0]; unfold conj_perm; intros; auto.
+Qed.
+
+(* the start state of a run satisfies the invariant, whatever the number of edges *)
+Lemma run_init_inv r n R0 p st0 k :
+  (is_und r = true -> (forall x y, R0 x y = R0 y x) /\ (forall x, R0 x x = 0)) ->
+  init_state (if is_und r then ELtril else ELall) n (pre_matrix r n R0 p) = (st0, k) ->
+  Inv (is_und r) n k st0 /\ sR st0 = pre_matrix r n R0 p.
+Proof.
+  intros Hpre Ei. set (src := if is_und r then ELtril else ELall) in *. set (R1 := pre_matrix r n R0 p) in *.
+  assert (Es: st0 = fst (init_state src n R1) /\ k = snd (init_state src n R1)) by (rewrite Ei; auto).
+  destruct Es as [Es Ekk]. split; [|rewrite Es; reflexivity].
+  rewrite Es, Ekk.
+  replace (is_und r) with (match src with ELall => false | _ => true end) by (unfold src; destruct (is_und r); reflexivity).
+  apply init_inv. intros Hsrc.
+  assert (U: is_und r = true) by (unfold src in Hsrc; destruct (is_und r); congruence).
+  destruct (Hpre U) as [Hs Hd]. apply pre_matrix_und_ok; assumption.
+Qed.
+
+(* no edge: `itr *= k` leaves nothing to iterate *)
+Lemma iterate_k0 v ma itr st s tr : iterate v 0 ma (itr * 0) st s tr = Some (st, s, tr).
+Proof. rewrite Nat.mul_0_r. reflexivity. Qed.
+
 Theorem run_routine_good r n R0 itr D s0 res :
-  run_routine r n R0 itr D s0 = Some res ->
+  run_routine r n R0 itr D s0 = Done res ->
   (is_und r = true -> (forall x y, R0 x y = R0 y x) /\ (forall x, R0 x x = 0)) ->
   let R1 := pre_matrix r n R0 (r_perm res) in
   exists k st,
@@ -99,64 +153,66 @@ Theorem run_routine_good r n R0 itr D s0 res :
     r_eff res = length (r_trace res) /\
     ((itr = O \/ r_eff res = O) -> r_rp res = R1).
 Proof.
-  intros H Hpre. unfold run_routine in H.
-  destruct (negb (precheck r n R0)); [discriminate|].
-  set (pre := if is_latt r then match s0 with DPerm p :: s1 => Some (p, tab 0 n n (conj_perm (of_list O p) R0), s1) | _ => None end
-              else Some (seq 0 n, R0, s0)) in H.
-  destruct pre as [[[p R1'] s1]|] eqn:Epre; [|discriminate].
-  set (src := if is_und r then ELtril else ELall) in H.
-  destruct (init_state src n R1') as [st0 k] eqn:Ei.
-  destruct (Nat.ltb k 2) eqn:Ek; [discriminate|]. apply Nat.ltb_ge in Ek.
-  destruct (iterate _ k _ (itr * k) st0 s1 []) as [[[stf s2] tr]|] eqn:It; [|discriminate].
-  inversion H; subst res; clear H. cbn [r_perm r_rp r_trace r_eff].
-  assert (ER1: pre_matrix r n R0 p = R1').
-  { unfold pre_matrix, pre in *. destruct (is_latt r).
-    - destruct s0 as [|[z|q|l] s0']; try discriminate. inversion Epre; subst. reflexivity.
-    - inversion Epre; subst. reflexivity. }
-  rewrite ER1.
-  assert (Hst0: st0 = fst (init_state src n R1') /\ k = snd (init_state src n R1')) by (rewrite Ei; auto).
-  destruct Hst0 as [Es Ekk].
-  assert (HI0: Inv (is_und r) n k st0).
-  { rewrite Es, Ekk.
-    replace (is_und r) with (match src with ELall => false | _ => true end) by (unfold src; destruct (is_und r); reflexivity).
-    apply init_inv. intros Hsrc.
-    assert (U: is_und r = true) by (unfold src in Hsrc; destruct (is_und r); congruence).
-    destruct (Hpre U) as [Hs Hd].
-    rewrite <- ER1. unfold pre_matrix. destruct (is_latt r).
-    - split; [apply tab_sym|apply tab_diag0]; unfold conj_perm; intros; auto.
-    - split; assumption. }
-  assert (HR0: sR st0 = R1') by (rewrite Es; reflexivity).
-  assert (HG0: Good (is_und r) n k R1' st0) by (split; [exact HI0|rewrite HR0; apply Same_refl]).
-  rewrite <- (variant_und r n (match D with Some D' => D' | None => ring_dist n end)) in HG0.
-  destruct (iterate_spec _ n k R1' _ _ _ _ _ _ _ _ ltac:(lia) HG0 (Forall_nil _) It) as (B1 & B2 & B3).
-  rewrite variant_und in B1, B2.
-  exists k, stf. split; [reflexivity|]. split; [exact B1|]. split; [exact B2|]. split; [reflexivity|].
-  intros [E|E].
-  - subst itr. cbn [Nat.mul iterate] in It. inversion It; subst. exact HR0.
-  - rewrite B3; [exact HR0|]. cbn [length]. exact E.
+  intros H Hpre R1.
+  destruct (run_routine_unfold _ _ _ _ _ _ _ H) as (s1 & st0 & k & stf & s2 & Pc & _ & Ei & _ & It & Erp & _ & Eeff).
+  destruct (run_init_inv r n R0 _ st0 k Hpre Ei) as [HI0 HR0]. fold R1 in HR0.
+  assert (HG0: Good (is_und r) n k R1 st0) by (split; [exact HI0|rewrite HR0; apply Same_refl]).
+  exists k, stf. split; [exact Erp|].
+  destruct (Nat.eq_dec k 0) as [K0|K0].
+  - subst k. rewrite iterate_k0 in It. injection It as E1 E2 E3. subst stf. rewrite <- E3.
+    split; [exact HG0|]. split; [apply Forall_nil|]. split; [rewrite Eeff, <- E3; reflexivity|].
+    intros _. rewrite Erp. exact HR0.
+  - rewrite <- (variant_und r n (match D with Some D' => D' | None => ring_dist n end)) in HG0.
+    destruct (iterate_spec _ n k R1 _ _ _ _ _ _ _ _ ltac:(lia) HG0 (Forall_nil _) It) as (B1 & B2 & B3).
+    rewrite variant_und in B1, B2.
+    split; [exact B1|]. split; [exact B2|]. split; [exact Eeff|].
+    intros [E|E].
+    + subst itr. cbn [Nat.mul iterate] in It. inversion It; subst. rewrite Erp. exact HR0.
+    + rewrite Erp, B3; [exact HR0|]. cbn [length]. rewrite <- Eeff. exact E.
+Qed.
+
+(* the structure of a returning call of randomize_graph_partial_und *)
+Lemma run_partial_unfold n A B maxswap s0 res :
+  run_partial_und n A B maxswap s0 = Done res ->
+  exists st0 k stf s2,
+    init_state ELtriu1 n A = (st0, k) /\
+    ((0 < k)%nat \/ maxswap = O) /\
+    until_swaps (mkvar true (mask_guard B)) k (length s0) maxswap st0 s0 [] = Some (stf, s2, r_trace res) /\
+    r_out res = sR stf.
+Proof.
+  intros H. unfold run_partial_und in H.
+  destruct (init_state ELtriu1 n A) as [st0 k] eqn:Ei.
+  destruct (Nat.eqb k 0 && negb (Nat.eqb maxswap 0))%bool eqn:Ek; [discriminate|].
+  destruct (until_swaps _ k (length s0) maxswap st0 s0 []) as [[[stf s2] tr]|] eqn:It; [|discriminate].
+  inversion H; subst res; clear H. cbn [r_out r_trace]. exists st0, k, stf, s2. repeat split; auto.
+  apply andb_false_iff in Ek. destruct Ek as [Ek|Ek].
+  - apply Nat.eqb_neq in Ek. left. lia.
+  - apply negb_false_iff, Nat.eqb_eq in Ek. right. exact Ek.
 Qed.
 
 Theorem run_partial_good n A B maxswap s0 res :
-  run_partial_und n A B maxswap s0 = Some res ->
+  run_partial_und n A B maxswap s0 = Done res ->
   (forall x y, A x y = A y x) -> (forall x, A x x = 0) ->
   exists k st,
     r_out res = sR st /\ Good true n k A st /\ GoodTrace true n k A (r_trace res) /\
     (maxswap = O -> r_out res = A).
 Proof.
-  intros H Hs Hd. unfold run_partial_und in H.
-  destruct (init_state ELtriu1 n A) as [st0 k] eqn:Ei.
-  destruct (Nat.ltb k 2) eqn:Ek; [discriminate|]. apply Nat.ltb_ge in Ek.
-  destruct (until_swaps _ k (length s0) maxswap st0 s0 []) as [[[stf s2] tr]|] eqn:It; [|discriminate].
-  inversion H; subst res; clear H. cbn [r_out r_trace].
+  intros H Hs Hd.
+  destruct (run_partial_unfold _ _ _ _ _ _ H) as (st0 & k & stf & s2 & Ei & Ek & It & Eo).
   assert (Es: st0 = fst (init_state ELtriu1 n A) /\ k = snd (init_state ELtriu1 n A)) by (rewrite Ei; auto).
   destruct Es as [Es Ekk].
   assert (HI0: Inv true n k st0).
   { rewrite Es, Ekk. apply (init_inv ELtriu1 n A). intros _. split; assumption. }
   assert (HR0: sR st0 = A) by (rewrite Es; reflexivity).
   assert (HG0: Good true n k A st0) by (split; [exact HI0|rewrite HR0; apply Same_refl]).
-  destruct (until_swaps_spec (mkvar true (mask_guard B)) n k A _ _ _ _ _ _ _ _ ltac:(lia) HG0 (Forall_nil _) It) as (B1 & B2 & B3).
-  exists k, stf. split; [reflexivity|]. split; [exact B1|]. split; [exact B2|].
-  intros E. rewrite (B3 E). exact HR0.
+  exists k, stf. split; [exact Eo|].
+  destruct Ek as [Ek|Ek].
+  - destruct (until_swaps_spec (mkvar true (mask_guard B)) n k A _ _ _ _ _ _ _ _ Ek HG0 (Forall_nil _) It) as (B1 & B2 & B3).
+    split; [exact B1|]. split; [exact B2|]. intros E. rewrite Eo, (B3 E). exact HR0.
+  - subst maxswap. assert (It': Some (st0, s0, @nil event) = Some (stf, s2, r_trace res)).
+    { rewrite <- It. destruct (length s0); reflexivity. }
+    injection It' as E1 E2 E3. subst stf. rewrite <- E3.
+    split; [exact HG0|]. split; [apply Forall_nil|]. intros _. rewrite Eo. exact HR0.
 Qed.
 
 (* ---------- permutations as lists; re-indexing sums ---------- *)
@@ -278,26 +334,21 @@ Proof. intros E x y Hx Hy. unfold out. rewrite E. rewrite R1_spec; auto using pe
 End Perm.
 
 Lemma run_routine_out r n R0 itr D s0 res :
-  run_routine r n R0 itr D s0 = Some res ->
+  run_routine r n R0 itr D s0 = Done res ->
   (is_latt r = false -> r_out res = r_rp res) /\
   (is_latt r = true -> (exists s1, s0 = DPerm (r_perm res) :: s1) /\
        r_out res = fun x y => r_rp res (index_of x (r_perm res)) (index_of y (r_perm res))).
 Proof.
-  intros H. unfold run_routine in H.
-  destruct (negb (precheck r n R0)); [discriminate|].
-  destruct (is_latt r) eqn:L.
-  - destruct s0 as [|[z|q|l] s1]; try discriminate.
-    destruct (init_state _ n _) as [st0 k]. destruct (Nat.ltb k 2); [discriminate|].
-    destruct (iterate _ _ _ _ _ _ _) as [[[stf s2] tr]|]; [|discriminate].
-    inversion H; subst; cbn. split; [discriminate|]. intros _. split; [eexists; reflexivity|reflexivity].
-  - destruct (init_state _ n _) as [st0 k]. destruct (Nat.ltb k 2); [discriminate|].
-    destruct (iterate _ _ _ _ _ _ _) as [[[stf s2] tr]|]; [|discriminate].
-    inversion H; subst; cbn. split; [reflexivity|discriminate].
+  intros H.
+  destruct (run_routine_unfold _ _ _ _ _ _ _ H) as (s1 & st0 & k & stf & s2 & _ & Es & _ & _ & _ & Erp & Eo & _).
+  rewrite Erp, Eo. destruct (is_latt r).
+  - split; [discriminate|]. intros _. split; [exists s1; exact Es|reflexivity].
+  - split; [reflexivity|discriminate].
 Qed.
 
 (* ---------- the returned matrix, in the caller's node numbering ---------- *)
 Theorem run_routine_caller r n R0 itr D s0 res :
-  run_routine r n R0 itr D s0 = Some res ->
+  run_routine r n R0 itr D s0 = Done res ->
   (is_und r = true -> (forall x y, R0 x y = R0 y x) /\ (forall x, R0 x x = 0)) ->
   (is_latt r = true -> Permutation (r_perm res) (seq 0 n)) ->
   (forall x, (x < n)%nat -> outdeg n (r_out res) x = outdeg n R0 x) /\
